@@ -170,7 +170,7 @@ __CPROVER_assigns(__CPROVER_object_whole(out)) __CPROVER_ensures(1) ;
 static void xv_havoc(void)
 {
     size_t a; char c; int i, j, k; bool b; double d; XMLInt64 l;
-    g_w = a; g_dp = c; g_n0 = i; g_dppos = j; g_neg = b; g_last_atof = d; g_out_kind = XV_OUT_NONE; g_out_int = l; (void)k;
+    g_w = a; g_dp = c; g_n0 = i; g_dppos = j; g_neg = XV_BOOL(b); g_last_atof = d; g_out_kind = XV_OUT_NONE; g_out_int = l; (void)k;
 }
 void h_n2s(void) { xv_havoc(); double x; NumberToDOMString_double(x, 0); }
 void h_n2c(void) { xv_havoc(); double x; NumberToCharacters_double(x, 0, 0); }
